@@ -6,20 +6,21 @@ import re, os, struct
 REPO = os.environ.get('BORNO_REPO', '/repo')   # default: the repository itself; tools/seedtest.py points the checks at a scratch worktree
 
 
-def _unq(s):
-    return bytes(s, 'utf-8').decode('unicode_escape').encode('latin-1').decode('utf-8') if '\\' in s else s
-
-
 def load():
+    """keyword and built-in spellings, code point by code point, from the MODEL's tables (coq/Model/Token.v,
+    Value.v) - which the table obligations tie to the Go source on every run.  Reading them from the model keeps
+    the generators working on a source tree whose tables have been changed (the change then shows as a difference)."""
+    root = os.path.dirname(os.path.dirname(os.path.dirname(os.path.abspath(__file__))))
+    tok = open(os.path.join(root, 'coq', 'Model', 'Token.v'), encoding='utf-8').read()
+    m = re.search(r'Definition keywords .*?:=\s*\[(.*?)\]\.', tok, re.S)
     kw = {}
-    src = open(os.path.join(REPO, 'lexer/scanner.go'), encoding='utf-8').read()
-    m = re.search(r'var keywords = map\[string\]token\.TokenType\{(.*?)\n\}', src, re.S)
-    for k, v in re.findall(r'"([^"]*)":\s*token\.(\w+)', m.group(1)):
-        kw.setdefault(v, k)
+    for cps, kind in re.findall(r'\(\[([0-9; ]+)\],\s*T(\w+)\)', m.group(1)):
+        kw.setdefault(kind, ''.join(chr(int(x)) for x in cps.split(';')))
+    val = open(os.path.join(root, 'coq', 'Model', 'Value.v'), encoding='utf-8').read()
+    m = re.search(r'Definition native_name .*?end\.', val, re.S)
     nat = {}
-    src = open(os.path.join(REPO, 'interpreter/interpreter.go'), encoding='utf-8').read()
-    for k, v in re.findall(r'globals\.Define\("([^"]*)",\s*Native(\w+)Fn\{\}\)', src):
-        nat[v.lower()] = k
+    for name, cps in re.findall(r'\| N(\w+) => \[([0-9; ]+)\]', m.group(0)):
+        nat[name.lower()] = ''.join(chr(int(x)) for x in cps.split(';'))
     return kw, nat
 
 
